@@ -71,4 +71,63 @@ theorem resampled_x_step_within_spacing (lo hi sp : ℝ) (hspan : lo < hi) (hsp 
 
 example : (2 : ℤ) ≤ ⌈GenRs.resampled_x_count 0 1 (10 : ℝ)⌉ := resampled_x_at_least_two_points 0 1 10 (by norm_num) (by norm_num)
 
+/-! ### `Series1::y_crossings`: the regenerated per-segment test, slope and crossing abscissa -/
+
+/-- a segment is examined exactly when the level lies between its two ordinates, ends included — a knot exactly on
+    the level is examined from both of its segments, whichever side the neighbours are on -/
+theorem crossing_test_iff (v0 v1 y : ℝ) :
+    GenRs.crossing_test v0 v1 y = true ↔ min v0 v1 ≤ y ∧ y ≤ max v0 v1 := by
+  unfold GenRs.crossing_test
+  simp only [Bool.or_eq_true, Bool.and_eq_true, decide_eq_true_eq]
+  constructor
+  · rintro (⟨h1, h2⟩ | ⟨h1, h2⟩)
+    · exact ⟨le_trans (min_le_left _ _) h1, le_trans h2 (le_max_right _ _)⟩
+    · exact ⟨le_trans (min_le_right _ _) h2, le_trans h1 (le_max_left _ _)⟩
+  · rintro ⟨h1, h2⟩
+    rcases le_total v0 v1 with h | h
+    · left; rw [min_eq_left h] at h1; rw [max_eq_right h] at h2; exact ⟨h1, h2⟩
+    · right; rw [min_eq_right h] at h1; rw [max_eq_left h] at h2; exact ⟨h2, h1⟩
+
+/-- on a segment that is not level, the abscissa the code reports is where the linear interpolant of the segment
+    takes the level, and it lies on the segment -/
+theorem crossing_x_is_where_the_interpolant_equals_the_level (x0 x1 v0 v1 y : ℝ) (hx : x0 < x1) (hv : v0 ≠ v1)
+    (ht : GenRs.crossing_test v0 v1 y = true) :
+    let x := GenRs.crossing_x x0 v0 (GenRs.crossing_slope x0 x1 v0 v1) y
+    v0 + (x - x0) * ((v1 - v0) / (x1 - x0)) = y ∧ x0 ≤ x ∧ x ≤ x1 := by
+  intro x
+  have hd : x1 - x0 ≠ 0 := sub_ne_zero.mpr (ne_of_gt hx)
+  have hdv : v1 - v0 ≠ 0 := sub_ne_zero.mpr (Ne.symm hv)
+  have hxe : x = x0 + (y - v0) * (x1 - x0) / (v1 - v0) := by
+    show x0 + (y - v0) / ((v1 - v0) / (x1 - x0)) = _
+    field_simp
+  obtain ⟨h1, h2⟩ := (crossing_test_iff v0 v1 y).mp ht
+  have hpos : 0 < x1 - x0 := sub_pos.mpr hx
+  refine ⟨by rw [hxe]; field_simp; ring, ?_, ?_⟩
+  · rw [hxe]
+    have : 0 ≤ (y - v0) * (x1 - x0) / (v1 - v0) := by
+      rcases lt_or_gt_of_ne hv with h | h
+      · rw [min_eq_left h.le] at h1
+        exact div_nonneg (mul_nonneg (sub_nonneg.mpr h1) hpos.le) (sub_pos.mpr h).le
+      · rw [max_eq_left h.le] at h2
+        have : (y - v0) * (x1 - x0) / (v1 - v0) = (v0 - y) * (x1 - x0) / (v0 - v1) := by
+          have hne : v0 - v1 ≠ 0 := sub_ne_zero.mpr hv
+          field_simp; ring
+        rw [this]
+        exact div_nonneg (mul_nonneg (sub_nonneg.mpr h2) hpos.le) (sub_pos.mpr h).le
+    linarith
+  · rw [hxe]
+    have : (y - v0) * (x1 - x0) / (v1 - v0) ≤ x1 - x0 := by
+      rcases lt_or_gt_of_ne hv with h | h
+      · rw [max_eq_right h.le] at h2
+        rw [div_le_iff₀ (sub_pos.mpr h)]
+        nlinarith
+      · rw [min_eq_right h.le] at h1
+        have hneg : v1 - v0 < 0 := sub_neg.mpr h
+        rw [div_le_iff_of_neg hneg]
+        nlinarith
+    linarith
+
+example : GenRs.crossing_test 1 0 (0 : ℝ) = true ∧ GenRs.crossing_test 0 1 (0 : ℝ) = true := by
+  constructor <;> rw [crossing_test_iff] <;> norm_num
+
 end C17U
